@@ -18,11 +18,11 @@ OPS = ["sbx", "pm", "uniform", "nonuniform"]
 
 
 def cases(ctx):
-    for i in range(ctx.pick(4000, 160000)):
+    for i in range(ctx.pick(4000, 640000)):
         yield "operator", {"seed": ctx.subseed("o", i), "op": OPS[i % 4]}
-    for i in range(ctx.pick(600, 25000)):
+    for i in range(ctx.pick(600, 100000)):
         yield "generator", {"seed": ctx.subseed("g", i), "gen": ["random", "lhs", "halton", "uniform", "fullfact", "pb", "bb", "gen_vector"][i % 8]}
-    for i in range(ctx.pick(120, 6000)):
+    for i in range(ctx.pick(120, 24000)):
         yield "run", {"seed": ctx.subseed("r", i), "algo": insitu.ALGOS[i % 5]}
 
 
